@@ -192,7 +192,8 @@ def oracle(ctx, widen=1):
                         bad = f"d{tuple(h1)} = {d}, crystallography gives {dref}"
                     elif abs(d - 2 * pi / np.linalg.norm(B @ h1)) > 1e-9 * dref:
                         bad = f"d{tuple(h1)} = {d} differs from 2 pi/|B.hkl|"
-                    elif abs(ang - aref) > 1e-6:
+                    elif abs(ang - aref) > 1e-6 and abs(math.cos(math.radians(ang)) - cang) > 1e-12:
+                        # (acos is ill-conditioned for (anti)parallel planes: there the cosines are compared)
                         bad = f"angle between planes {tuple(h1)} and {tuple(h2)} = {ang}, crystallography gives {aref}"
                     elif wl / (2 * d) < 1:
                         tth = ub.get_ttheta_from_hkl(tuple(h1), en)
